@@ -141,43 +141,40 @@ theorem mem_errs (rs : List (ClusterId × CRes)) (s : Nat)
   | failed s' => rw [hst] at hs; simp at hs; left; rw [hs]
   | starved => rw [hst] at hs; simp at hs; right; exact ⟨rfl, hs.symm⟩
 
-/-- All clusters honest ⇒ every loop ends normally and, over all clusters, each existing requested
-uuid is delivered exactly once. `gs` is any list of groups with distinct cluster ids whose uuids
-are duplicate-free and homed at the group's cluster. -/
-theorem split_honest_all (cfg : Cfg) (o : Opts) (ex : ClusterId → Uuid → Bool)
+/-- Combining the clusters: if every cluster's delivered uuids are pairwise distinct and are exactly
+the uuids of its group that satisfy `S`, then over all clusters the delivered uuids are pairwise
+distinct and are exactly the grouped uuids satisfying `S`. `gs` is any list of groups with distinct
+cluster ids whose uuids are homed at the group's cluster. -/
+theorem split_combine (cfg : Cfg) (o : Opts) (S : ClusterId → Uuid → Prop)
     (gs : List (ClusterId × List Uuid))
     (hkeys : (gs.map (·.1)).Nodup)
-    (hgs : ∀ g ∈ gs, g.2.Nodup ∧ ∀ u ∈ g.2, home u = g.1)
-    (hB : ∀ g ∈ gs, ∃ B, backendFor cfg g.1 = some B ∧ Honest (ex g.1) B) :
-    (∀ r ∈ splitResults cfg o gs, r.2.stop = .done) ∧
+    (hhome : ∀ g ∈ gs, ∀ u ∈ g.2, home u = g.1)
+    (hper : ∀ g ∈ gs, (pageUuids (runCluster cfg o g.1 g.2).pages.flatten).Nodup ∧
+      ∀ u, u ∈ pageUuids (runCluster cfg o g.1 g.2).pages.flatten ↔ (u ∈ g.2 ∧ S g.1 u)) :
     (pageUuids ((splitResults cfg o gs).flatMap (fun r => r.2.pages)).flatten).Nodup ∧
     ∀ u, u ∈ pageUuids ((splitResults cfg o gs).flatMap (fun r => r.2.pages)).flatten ↔
-      ∃ g ∈ gs, u ∈ g.2 ∧ ex g.1 u = true := by
+      ∃ g ∈ gs, u ∈ g.2 ∧ S g.1 u := by
   induction gs with
   | nil => simp [splitResults, pageUuids]
   | cons g gs ih =>
     have hk : g.1 ∉ gs.map (·.1) ∧ (gs.map (·.1)).Nodup := by
       rw [List.map_cons] at hkeys; exact List.nodup_cons.mp hkeys
-    obtain ⟨ih1, ih2, ih3⟩ := ih hk.2 (fun g' hg' => hgs g' (List.mem_cons_of_mem _ hg'))
-      (fun g' hg' => hB g' (List.mem_cons_of_mem _ hg'))
-    obtain ⟨B, hbf, hhon⟩ := hB g List.mem_cons_self
-    obtain ⟨hnd, hhome⟩ := hgs g List.mem_cons_self
-    have hrc : runCluster cfg o g.1 g.2 = clusterLoop B (remoteOpts cfg.localId o) g.2.length g.2 0 := by
-      unfold runCluster; rw [hbf]
-    obtain ⟨l1, l2, l3⟩ := loop_honest (ex g.1) B hhon (remoteOpts cfg.localId o) g.2.length g.2 0 hnd (Nat.le_refl _)
-    rw [← hrc] at l1 l2 l3
+    obtain ⟨ih2, ih3⟩ := ih hk.2 (fun g' hg' => hhome g' (List.mem_cons_of_mem _ hg'))
+      (fun g' hg' => hper g' (List.mem_cons_of_mem _ hg'))
+    obtain ⟨l2, l3⟩ := hper g List.mem_cons_self
+    have hh := hhome g List.mem_cons_self
     have hsr : splitResults cfg o (g :: gs) = (g.1, runCluster cfg o g.1 g.2) :: splitResults cfg o gs := rfl
     rw [hsr]
-    simp only [List.mem_cons, forall_eq_or_imp, List.flatMap_cons, List.flatten_append, pageUuids_append]
-    refine ⟨⟨l1, ih1⟩, ?_, ?_⟩
+    simp only [List.flatMap_cons, List.flatten_append, pageUuids_append]
+    refine ⟨?_, ?_⟩
     · rw [List.nodup_append]
       refine ⟨l2, ih2, ?_⟩
       intro a ha b hb hab
       subst hab
       have h1 := (l3 a).mp ha
       obtain ⟨g', hg', hu', _⟩ := (ih3 a).mp hb
-      have e1 := hhome a h1.1
-      have e2 := (hgs g' (List.mem_cons_of_mem _ hg')).2 a hu'
+      have e1 := hh a h1.1
+      have e2 := hhome g' (List.mem_cons_of_mem _ hg') a hu'
       apply hk.1
       rw [← e1, e2]
       exact List.mem_map.mpr ⟨g', hg', rfl⟩
@@ -185,11 +182,105 @@ theorem split_honest_all (cfg : Cfg) (o : Opts) (ex : ClusterId → Uuid → Boo
       rw [List.mem_append, l3, ih3]
       constructor
       · rintro (⟨h1, h2⟩ | ⟨g', hg', h1, h2⟩)
-        · exact ⟨g, Or.inl rfl, h1, h2⟩
-        · exact ⟨g', Or.inr hg', h1, h2⟩
-      · rintro ⟨g', rfl | hg', h1, h2⟩
+        · exact ⟨g, List.mem_cons_self, h1, h2⟩
+        · exact ⟨g', List.mem_cons_of_mem _ hg', h1, h2⟩
+      · rintro ⟨g', hg', h1, h2⟩
+        rcases List.mem_cons.mp hg' with rfl | hg'
         · exact Or.inl ⟨h1, h2⟩
         · exact Or.inr ⟨g', hg', h1, h2⟩
+
+/-- what one cluster delivers when its loop ends normally, for **any** backend -/
+theorem runCluster_safe (cfg : Cfg) (o : Opts) (c : ClusterId) (todo : List Uuid)
+    (hd : (runCluster cfg o c todo).stop = .done) :
+    (∃ B, backendFor cfg c = some B) ∧
+    (pageUuids (runCluster cfg o c todo).pages.flatten).Nodup ∧
+    ∀ u ∈ pageUuids (runCluster cfg o c todo).pages.flatten, u ∈ todo := by
+  unfold runCluster at hd ⊢
+  cases hb : backendFor cfg c with
+  | none => rw [hb] at hd; simp at hd
+  | some B =>
+    rw [hb] at hd
+    exact ⟨⟨B, rfl⟩, loop_safe B _ _ _ _ hd⟩
+
+/-- Safety over all clusters for **arbitrary** backends: if every loop ended normally, the delivered
+uuids are pairwise distinct and each one belongs to the group of its home cluster. -/
+theorem split_safe_all (cfg : Cfg) (o : Opts) (gs : List (ClusterId × List Uuid))
+    (hkeys : (gs.map (·.1)).Nodup)
+    (hhome : ∀ g ∈ gs, ∀ u ∈ g.2, home u = g.1)
+    (hdone : ∀ g ∈ gs, (runCluster cfg o g.1 g.2).stop = .done) :
+    (pageUuids ((splitResults cfg o gs).flatMap (fun r => r.2.pages)).flatten).Nodup ∧
+    ∀ u ∈ pageUuids ((splitResults cfg o gs).flatMap (fun r => r.2.pages)).flatten, ∃ g ∈ gs, u ∈ g.2 := by
+  have h := split_combine cfg o
+    (fun c u => ∃ g ∈ gs, g.1 = c ∧ u ∈ pageUuids (runCluster cfg o g.1 g.2).pages.flatten) gs hkeys hhome (by
+      intro g hg
+      obtain ⟨_, h1, h2⟩ := runCluster_safe cfg o g.1 g.2 (hdone g hg)
+      refine ⟨h1, fun u => ⟨fun hu => ⟨h2 u hu, g, hg, rfl, hu⟩, ?_⟩⟩
+      rintro ⟨hu, g', hg', he, hu'⟩
+      -- same key ⇒ same uuids requested, and u is homed there
+      have hsame : g' = g := by
+        -- distinct keys: two members with the same key are equal
+        have : ∀ (l : List (ClusterId × List Uuid)), (l.map (·.1)).Nodup → g ∈ l → g' ∈ l → g'.1 = g.1 → g' = g := by
+          intro l
+          induction l with
+          | nil => intro _ h; cases h
+          | cons a l ihl =>
+            intro hn h1 h2 he
+            rw [List.map_cons] at hn
+            obtain ⟨hna, hn'⟩ := List.nodup_cons.mp hn
+            rcases List.mem_cons.mp h1 with e1 | h1' <;> rcases List.mem_cons.mp h2 with e2 | h2'
+            · rw [e1, e2]
+            · exact (hna (by rw [← e1, ← he]; exact List.mem_map.mpr ⟨g', h2', rfl⟩)).elim
+            · exact (hna (by rw [← e2, he]; exact List.mem_map.mpr ⟨g, h1', rfl⟩)).elim
+            · exact ihl hn' h1' h2' he
+        exact this gs hkeys hg hg' he
+      subst hsame
+      exact hu')
+  exact ⟨h.1, fun u hu => by obtain ⟨g, hg, hu', _⟩ := (h.2 u).mp hu; exact ⟨g, hg, hu'⟩⟩
+
+/-- Repeating-honest backends on all clusters and every loop ended normally ⇒ over all clusters
+each existing requested uuid is delivered exactly once and nothing else is. -/
+theorem split_repeating_all (cfg : Cfg) (o : Opts) (ex : ClusterId → Uuid → Bool)
+    (gs : List (ClusterId × List Uuid))
+    (hkeys : (gs.map (·.1)).Nodup)
+    (hhome : ∀ g ∈ gs, ∀ u ∈ g.2, home u = g.1)
+    (hB : ∀ g ∈ gs, ∃ B, backendFor cfg g.1 = some B ∧ RepeatingHonest (ex g.1) B)
+    (hdone : ∀ g ∈ gs, (runCluster cfg o g.1 g.2).stop = .done) :
+    (pageUuids ((splitResults cfg o gs).flatMap (fun r => r.2.pages)).flatten).Nodup ∧
+    ∀ u, u ∈ pageUuids ((splitResults cfg o gs).flatMap (fun r => r.2.pages)).flatten ↔
+      ∃ g ∈ gs, u ∈ g.2 ∧ ex g.1 u = true := by
+  apply split_combine cfg o (fun c u => ex c u = true) gs hkeys hhome
+  intro g hg
+  obtain ⟨B, hbf, hrep⟩ := hB g hg
+  have hd := hdone g hg
+  obtain ⟨_, s1, s2⟩ := runCluster_safe cfg o g.1 g.2 hd
+  refine ⟨s1, fun u => ?_⟩
+  unfold runCluster at hd s2 ⊢
+  rw [hbf] at hd s2 ⊢
+  obtain ⟨c1, c2⟩ := loop_complete (ex g.1) B hrep _ _ _ _ hd
+  exact ⟨fun hu => ⟨s2 u hu, c2 u hu⟩, fun ⟨h1, h2⟩ => c1 u h1 h2⟩
+
+/-- honest backends: every loop ends normally -/
+theorem split_honest_done (cfg : Cfg) (o : Opts) (ex : ClusterId → Uuid → Bool)
+    (gs : List (ClusterId × List Uuid))
+    (hnd : ∀ g ∈ gs, g.2.Nodup)
+    (hB : ∀ g ∈ gs, ∃ B, backendFor cfg g.1 = some B ∧ Honest (ex g.1) B) :
+    ∀ g ∈ gs, (runCluster cfg o g.1 g.2).stop = .done := by
+  intro g hg
+  obtain ⟨B, hbf, hhon⟩ := hB g hg
+  unfold runCluster; rw [hbf]
+  exact (loop_honest (ex g.1) B hhon _ g.2.length g.2 0 (hnd g hg) (Nat.le_refl _)).1
+
+theorem done_of_results (cfg : Cfg) (o : Opts) (gs : List (ClusterId × List Uuid))
+    (h : ∀ r ∈ splitResults cfg o gs, r.2.stop = .done) :
+    ∀ g ∈ gs, (runCluster cfg o g.1 g.2).stop = .done :=
+  fun g hg => h (g.1, runCluster cfg o g.1 g.2) (List.mem_map.mpr ⟨g, hg, rfl⟩)
+
+theorem results_of_done (cfg : Cfg) (o : Opts) (gs : List (ClusterId × List Uuid))
+    (h : ∀ g ∈ gs, (runCluster cfg o g.1 g.2).stop = .done) :
+    ∀ r ∈ splitResults cfg o gs, r.2.stop = .done := by
+  intro r hr
+  obtain ⟨g, hg, rfl⟩ := List.mem_map.mp hr
+  exact h g hg
 
 /-- the groups of a duplicate-free uuid list satisfy the side conditions of `split_honest_all` -/
 theorem groups_wf (us : List Uuid) (hnd : us.Nodup) :
